@@ -1,5 +1,5 @@
 (* C31 — fillers, #define values, line directives (C31/Model.v). *)
-From Coq Require Import List NArith Bool Arith Lia ZifyBool DecimalN.
+From Coq Require Import List NArith ZArith Bool Arith Lia ZifyBool DecimalN.
 Import ListNotations.
 From Cffi Require Import C31.Model C31.Proofs.
 Open Scope N_scope.
@@ -284,20 +284,22 @@ Proof. intros i. reflexivity. Qed.
 Lemma restore_cons : forall l ls st,
   restore_lines (l :: ls) st =
   if is_dirline l then
-    match starts_with s_lineat l with
-    | None => Err CDefError
-    | Some num =>
-        match undec num with
-        | None => Err Unmodelled
-        | Some i =>
-            match nth_error st (N.to_nat i) with
-            | None => Err CDefError
-            | Some d => match restore_lines ls st with Ok out => Ok (d :: out) | Err e => Err e end
-            end
-        end
+    match replace l st with
+    | Err e => Err e
+    | Ok d => match restore_lines ls st with Ok out => Ok (d :: out) | Err e => Err e end
     end
   else match restore_lines ls st with Ok out => Ok (l :: out) | Err e => Err e end.
 Proof. reflexivity. Qed.
+
+Lemma replace_placeholder : forall i pre l st, length pre = N.to_nat i ->
+  replace (s_lineat ++ dec i) (pre ++ l :: st) = Ok l.
+Proof.
+  intros i pre l st Hp. unfold replace, replace_raw. rewrite starts_placeholder.
+  unfold py_int10. rewrite undec_dec. unfold py_index.
+  assert ((0 <=? Z.of_N i)%Z = true) as -> by (apply Z.leb_le; apply N2Z.is_nonneg).
+  assert (Z.to_nat (Z.of_N i) = N.to_nat i) as -> by lia.
+  rewrite nth_error_app2 by lia. rewrite <- Hp, Nat.sub_diag. reflexivity.
+Qed.
 
 Lemma stash_cons : forall l ls i,
   stash_lines (l :: ls) i =
@@ -316,8 +318,7 @@ Proof.
   - rewrite stash_cons in H. destruct (is_dirline l) eqn:D.
     + destruct (stash_lines ls (i + 1)) as [out' st'] eqn:E. inversion H; subst. clear H.
       change (35 :: 108 :: 105 :: 110 :: 101 :: 64 :: dec i) with (s_lineat ++ dec i).
-      rewrite restore_cons, is_dirline_placeholder, starts_placeholder, undec_dec.
-      rewrite nth_error_app2 by lia. rewrite <- Hp, Nat.sub_diag. simpl nth_error.
+      rewrite restore_cons, is_dirline_placeholder, (replace_placeholder i pre l st' Hp).
       specialize (IH (i + 1) (pre ++ [l]) out' st' E).
       rewrite <- app_assoc in IH. simpl in IH. rewrite IH; [reflexivity|].
       rewrite app_length. simpl. lia.
@@ -378,4 +379,58 @@ Theorem normalize_removes : forall s, forallb (fun c => negb (other_ws c)) (norm
 Proof.
   induction s as [|c s IH]; [reflexivity|]. unfold normalize_ws in *. simpl.
   destruct (other_ws c) eqn:O; [|rewrite O]; simpl; assumption.
+Qed.
+
+(* ------------------------------------------------------------------ what _put_back_line_directives can raise *)
+
+Lemma replace_errors : forall l st x, replace l st = Err x -> x = CDefError.
+Proof.
+  intros l st x. unfold replace. destruct (replace_raw l st) as [d|e] eqn:R.
+  - discriminate.
+  - (* replace_raw raises only ValueError or IndexError, both are caught *)
+    unfold replace_raw in R. destruct (starts_with s_lineat l); [|inversion R; subst; intros H; now inversion H].
+    destruct (py_int10 t); [|inversion R; subst; intros H; now inversion H].
+    destruct (py_index st z); [discriminate|]. inversion R; subst. intros H; now inversion H.
+Qed.
+
+(* the three ways replace() fails by itself *)
+Lemma replace_raw_errors : forall l st x, replace_raw l st = Err x -> x = ValueError \/ x = IndexError.
+Proof.
+  intros l st x. unfold replace_raw. destruct (starts_with s_lineat l); [|intros H; inversion H; auto].
+  destruct (py_int10 t); [|intros H; inversion H; auto].
+  destruct (py_index st z); [discriminate|]. intros H; inversion H; auto.
+Qed.
+
+Lemma restore_errors : forall ls st x, restore_lines ls st = Err x -> x = CDefError.
+Proof.
+  induction ls as [|l ls IH]; intros st x H; [discriminate|].
+  rewrite restore_cons in H. destruct (is_dirline l).
+  - destruct (replace l st) as [d|e] eqn:R.
+    + destruct (restore_lines ls st) eqn:E; [discriminate|]. inversion H; subst. eauto.
+    + inversion H; subst. eapply replace_errors; eauto.
+  - destruct (restore_lines ls st) eqn:E; [discriminate|]. inversion H; subst. eauto.
+Qed.
+
+Theorem preprocess_errors : forall s x, preprocess s = Err x -> x = CDefError.
+Proof.
+  intros s x. unfold preprocess. destruct (remove_line_directives (normalize_ws s)) as [s1 st].
+  destruct (process_defines (sc s1)) as [s3 ms]. unfold put_back_line_directives.
+  destruct (restore_lines (split_lines s3) st) as [ls|e] eqn:R; [discriminate|].
+  intros H. inversion H; subst. eapply restore_errors; eauto.
+Qed.
+
+(* the stashed placeholder passes through comment removal untouched at any cut outside comments
+   (which is why the "file name" of a directive cannot confuse the comment scanner) *)
+Lemma dec_noslash : forall i, Forall (fun c => c <> SLASH) (dec i).
+Proof.
+  intros i. unfold dec. induction (N.to_uint i); simpl; constructor; try assumption; discriminate.
+Qed.
+
+Theorem placeholder_inert : forall s1 i s2, closed s1 ->
+  sc (s1 ++ (s_lineat ++ dec i) ++ s2) = sc s1 ++ (s_lineat ++ dec i) ++ sc s2.
+Proof.
+  intros s1 i s2 H1.
+  assert (F : Forall (fun c => c <> SLASH) (s_lineat ++ dec i)).
+  { apply Forall_app. split; [repeat constructor; discriminate|apply dec_noslash]. }
+  rewrite (sc_app s1 H1), (sc_app _ (closed_noslash _ F)), (sc_noslash _ F). reflexivity.
 Qed.
